@@ -12,11 +12,18 @@ package volatility
 //@ ensures[C04] forall kk :: 0 <= kk && kk < len(result1) ==> hor(result1, kk) <= max(hor(high, kk + (a.IdlePeriod())), max(hor(low, kk + (a.IdlePeriod())), hor(closing, kk + (a.IdlePeriod()))))
 //@ ensures[C04] forall kk :: 0 <= kk && kk < len(result2) ==> hor(result2, kk) <= max(hor(high, kk + (a.IdlePeriod())), max(hor(low, kk + (a.IdlePeriod())), hor(closing, kk + (a.IdlePeriod()))))
 
+// TR = Max((High - Low), (High - Previous Closing), (Previous Closing - Low)); ATR = MA of TR
+//@ stream trS(h stream, l stream, c stream)[k] = max(h[k+1] - l[k+1], max(h[k+1] - c[k], c[k] - l[k+1]))
 //@ func Atr.Compute
 //@ requires consumed(highs) == 0 && consumed(lows) == 0 && consumed(closings) == 0 && len(highs) == len(lows) && len(highs) == len(closings)
 //@ ensures[C02] len(result) == max(0, len(highs) - (a.IdlePeriod()))
 //@ ensures[C03] consumed(highs) == len(highs) && consumed(lows) == len(lows) && consumed(closings) == len(closings) && closed(result)
 //@ ensures[C04] forall kk :: 0 <= kk && kk < len(result) ==> hor(result, kk) <= max(hor(highs, kk + (a.IdlePeriod())), max(hor(lows, kk + (a.IdlePeriod())), hor(closings, kk + (a.IdlePeriod()))))
+//@ import "positivity", "sma-value"
+//@ step[C01,C15] "true-range" forall k :: 0 <= k && k < len(tr) ==> tr[k] == trS(highs, lows, closings)[k]
+//@ use psum_cong(tr, trS(highs, lows, closings), _)
+//@ ensures[C01] "formula-sma" istype(a.Ma, "trend.Sma") ==> (forall k :: 0 <= k && k < len(result) ==> result[k] == smaS(trS(highs, lows, closings), as(a.Ma, "trend.Sma").Period)[k])
+//@ ensures[C15] "non-negative" posma(a.Ma) && (forall j :: 0 <= j && j < len(highs) ==> lows[j] <= highs[j]) ==> (forall k :: 0 <= k && k < len(result) ==> result[k] >= 0)
 
 //@ func BollingerBands.Compute
 //@ requires b.Period >= 1 && consumed(c) == 0
